@@ -41,7 +41,7 @@ def ty_tokens(t, out):
         out.append(t[1])
     elif k in ("b", "f32", "f64", "c", "s", "dt", "da", "ti", "u", "v"):
         out.append(k)
-    elif k in ("O", "L"):
+    elif k in ("O", "L", "Y"):      # "Y": serde_spanned::Spanned<t> (C14, serde half)
         out.append(k); ty_tokens(t[1], out)
     elif k == "T":
         out.append("T%d" % len(t[1]))
@@ -140,6 +140,8 @@ def val_tokens(v, out):
         out.append(k)
     elif k in ("O", "W"):
         out.append(k); val_tokens(v[1], out)
+    elif k == "Y":                    # ("Y", start, end, v): Spanned { span: start..end, value: v }
+        out.append("Y%d-%d" % (v[1], v[2])); val_tokens(v[3], out)
     elif k in ("L", "R"):
         out.append("%s%d" % (k, len(v[1])))
         for x in v[1]:
@@ -226,6 +228,9 @@ def _parse_val(t):
         return (h,)
     if h in ("O", "W"):
         return (h, _parse_val(t))
+    if h == "Y":
+        a, _, b = r.partition("-")
+        return ("Y", int(a), int(b), _parse_val(t))
     if h in ("L", "R"):
         return (h, [_parse_val(t) for _ in range(int(r))])
     if h == "M":
@@ -295,6 +300,8 @@ def sval_eq(a, b):
         return True
     if k in ("O", "W"):
         return sval_eq(a[1], b[1])
+    if k == "Y":
+        return a[1] == b[1] and a[2] == b[2] and sval_eq(a[3], b[3])
     if k in ("L", "R"):
         return len(a[1]) == len(b[1]) and all(sval_eq(x, y) for x, y in zip(a[1], b[1]))
     if k == "M":
@@ -323,7 +330,7 @@ def sval_eq(a, b):
 # ---------------------------------------------------------------------------------------------
 def ty_children(t):
     k = t[0]
-    if k in ("O", "L"):
+    if k in ("O", "L", "Y"):
         return [t[1]]
     if k == "T":
         return list(t[1])
